@@ -282,7 +282,7 @@ fn driver_in(i: &GIface, k: usize, module: &str) -> String {
         writeln!(w, "    let ctx = {:?};", format!("interface {} method {} (module {module})", i.name, name)).unwrap();
         writeln!(w, "    let types = types();\n    let mut params = Map::new();").unwrap();
         for (ai, a) in inputs.iter().enumerate() {
-            writeln!(w, "    let a{ai} = gen_value(&{}, &types, rng);", ty_expr(&a.ty)).unwrap();
+            writeln!(w, "    let a{ai} = gen_value_arg(&{}, &types, rng);", ty_expr(&a.ty)).unwrap();
             writeln!(w, "    params.insert({:?}.to_string(), a{ai}.clone());", a.name).unwrap();
         }
         writeln!(w, "    let outputs: Vec<(&'static str, Ty)> = {};", fields_expr(outputs)).unwrap();
